@@ -18,17 +18,17 @@ Definition classT (c : cfg) : Prop :=
 
 (* the threshold in force below a call *)
 Definition th_of (c : cfg) (thr : N) (f : N) : N := match q_time (trig_of c f) with Some t => t | None => thr end.
-(* calls take time and none runs exactly the threshold in force for it *)
+(* calls take time *)
 Fixpoint wfT (c : cfg) (thr : N) (n : call) : Prop :=
   match n with
   | Call f t0 t1 ks =>
-      (t0 < t1)%N /\ (t1 < two64)%N /\ tdelta t1 t0 <> th_of c thr f /\
+      (t0 < t1)%N /\ (t1 < two64)%N /\
       (fix go (l : list call) : Prop := match l with [] => True | x :: r => wfT c (th_of c thr f) x /\ go r end) ks
   end.
 Lemma wfT_kids c thr f t0 t1 ks : wfT c thr (Call f t0 t1 ks) ->
-  (t0 < t1)%N /\ (t1 < two64)%N /\ tdelta t1 t0 <> th_of c thr f /\ Forall (wfT c (th_of c thr f)) ks.
+  (t0 < t1)%N /\ (t1 < two64)%N /\ Forall (wfT c (th_of c thr f)) ks.
 Proof.
-  cbn [wfT]. intros (A & B & C & D). repeat split; auto.
+  cbn [wfT]. intros (A & B & D). repeat split; auto.
   induction ks as [|k ks IH]; constructor; [apply D|apply IH; apply D].
 Qed.
 
@@ -157,13 +157,13 @@ Section RecT.
   Proof.
     induction n as [f t0 t1 ks IH] using call_ind'. intros i dp ft stk ri ou hk Hlen Hd Hwf.
     pose proof (recT_kids ks IH) as HK.
-    apply wfT_kids in Hwf. destruct Hwf as (H01 & H1 & Hne & Hwk).
+    apply wfT_kids in Hwf. destruct Hwf as (H01 & H1 & Hwk).
     cbn [height] in Hlen, Hd. fold (fheight ks) in Hlen, Hd.
     assert (Hl : (length stk < 1024)%nat) by lia.
     assert (Hdp : (Z.to_N (gdepth c) <=? dp)%N = false) by lia.
     destruct HT as (Htr & _). destruct (Htr f) as [Ef _].
     cbn [events]. rewrite execT_cons, execT_app. rewrite (enterT f t0 i dp ft stk ri ou hk Hl Hdp).
-    rewrite <- (thr_next ft f) in Hwk, Hne.
+    rewrite <- (thr_next ft f) in Hwk.
     rewrite (HK i (dp + 1)%N (ft_next ft f) _ (ri + 1)%N ou (true :: hk)) by (auto; cbn [length]; lia).
     cbn [tprune]. fold (th_of c (thr_of c ft) f). rewrite <- (thr_next ft f).
     replace (negb (tdelta t1 t0 <? thr_of c (ft_next ft f))%N) with (thr_of c (ft_next ft f) <=? tdelta t1 t0)%N by lia.
